@@ -41,6 +41,15 @@ ATTR_PROGS = [
     "{ RdV = P0_NEW; }", "{ RdV = HEX_REG_ALIAS_LR_NEW; }", "{ if (PtN) { JUMP(RsV); } else { P1 = RtV; } }",
     "{ RdV = RsV + 1; }", "{ RdV = (1 ? RsV : ((int32_t)mem_load_s32(RtV))); }", "{ PdV = RsV; P0 = PdV; }", "{ RxV = P1; }",
     "{ P2 = RsV; }", "{ EA = RsV; if (RtV) { mem_store_u8(EA, RuV); } }",
+    # destinations that are NOT predicate registers although their names start like one; other alias / control destinations
+    "{ HEX_REG_ALIAS_PC = RsV; }", "{ HEX_REG_ALIAS_PKTCNTLO = RsV; }", "{ HEX_REG_ALIAS_PKTCNTHI += 1; }", "{ HEX_REG_ALIAS_PKTCOUNT = RssV; }",
+    "{ HEX_REG_ALIAS_UPCYCLELO = RsV; }", "{ HEX_REG_ALIAS_SP = RsV; HEX_REG_ALIAS_LR = RtV; }", "{ CdV = RsV; }", "{ CddV = RssV; }",
+    "{ int32_t p0 = RsV; int32_t P = 1; RdV = p0 + P; }", "{ int32_t Pnew = RsV; Pnew = Pnew + 1; RdV = Pnew; }",
+    # what a called sub-routine's body contains is not an attribute of the caller
+    "{ RdV = clo32(RsV); }", "{ RdV = clz32(RsV) + conv_round(RtV, 2); }", "{ RdV = fbrev(RsV); }", "{ RddV = clz64(RssV); }",
+    "{ set_usr_field(bundle, HEX_REG_FIELD_USR_OVF, 1); }", "{ RdV = get_usr_field(bundle, HEX_REG_FIELD_USR_LPCFG); }",
+    # explicit predicates in every position
+    "{ P0 = P1; }", "{ P3 &= RsV; }", "{ RdV = (P2 ? RsV : RtV); }", "{ if (P1) { P0 = 1; } else { P2 = 0; } }", "{ PxV = PxV | 1; }",
 ]
 FAILING = ["{ RdV = ; }", "{ if (P0_NEW) { RdV = ((int32_t)mem_load_s32(RsV)) + unknown_fn(RtV); } }", "{ P0 = 1; RdV = foo(RsV); }",
            "{ EA = RsV; mem_store_u32(EA, RtV); while (RsV) { RdV = 1; } }", "{ JUMP(RsV); RdV = RsV->x; }"]
